@@ -16,11 +16,19 @@ def jwkGuardsPublicOnly (cases : List String) : Bool :=
   cases.contains "jwk.ECDSAPrivateKey" && cases.contains "jwk.RSAPrivateKey" && cases.contains "jwk.OKPPrivateKey" &&
   cases.contains "jwk.SymmetricKey"
 
+/-- `ParseTransaction` checks the framing itself (after jws.Parse): three segments, each the canonical unpadded base64url
+    encoding of what it decodes to — or the JSON serialization -/
+def framingGuardsStrict (parseConds framingConds : List String) : Bool :=
+  parseConds.contains "!isJWSSerialization(input)" &&
+  framingConds.contains "len(segments) != 3" && framingConds.contains "err != nil" &&
+  framingConds.contains "base64.RawURLEncoding.EncodeToString(decoded) != string(segment)"
+
 def srcCfg : Cfg :=
   { allowedAlgos := Facts.C06.allowedAlgos
     allowedVersion := Facts.C06.allowedVersion
     lcStrict := lcGuardsStrict Facts.C06.parseLamportClockConds
     jwkPublicOnly := jwkGuardsPublicOnly Facts.C06.jwkRefusedKeyTypes
+    strictFraming := framingGuardsStrict Facts.C06.parseConds Facts.C06.framingConds
     sigtH := Facts.C06.sigtHeader
     verH := Facts.C06.verHeader
     prevsH := Facts.C06.prevsHeader
